@@ -227,6 +227,25 @@ def chk_ops(c):
     unchanged('rotate_2d')
     assert np.allclose(f[0].grid_eval(grid), V[..., 0], atol=1e-12) and np.allclose(f[1].grid_eval(grid), V[..., 1], atol=1e-12), 'component selection'
     unchanged('__getitem__')
+    # component selection with every index kind numpy accepts on the last axis: f[I] evaluates to f(...)[..., I], for both kinds of function
+    # (for NURBS the weight column is not a component), Jacobians follow, out-of-range indices raise
+    f3, _ = _func(dict(c, tail=[3]))
+    V3 = f3.grid_eval(grid)
+    J3 = f3.grid_jacobian(grid)
+    for I in (0, 2, -1, -2, slice(None), slice(1, None), slice(None, None, -1), slice(0, 2), [0, 2], [-1, 0], [2, 2, 1]):
+        sel = f3[I]
+        want = V3[..., I]
+        got = sel.grid_eval(grid)
+        assert got.shape == want.shape, 'component selection %r: result has shape %r, expected %r' % (I, got.shape, want.shape)
+        assert np.allclose(got, want, atol=1e-12), 'component selection %r returns other components (max deviation %g)' % (I, np.max(np.abs(got - want)))
+        assert np.allclose(np.squeeze(sel.grid_jacobian(grid)), np.squeeze(J3[..., I, :]), atol=1e-10), 'Jacobian of component selection %r' % (I,)
+    for I in (3, -4):
+        try:
+            f3[I]
+        except IndexError:
+            pass
+        else:
+            raise AssertionError('component selection with the out-of-range index %r does not raise' % (I,))
     n = f.as_nurbs()
     assert np.allclose(n.grid_eval(grid), V, atol=1e-12), 'as_nurbs'
     unchanged('as_nurbs')
